@@ -43,20 +43,20 @@ theorem snapshot_tie (inp : Nat → Nat) (cg : Nat) (cache : List Nat) (nowNs : 
         2 ⟨0, rfl⟩ (typedInp inp 1)
      have hgood := loopOutG_spec (typedInp inp) cg cache (LS .i32 (typedInp inp 0)) (goodMk_LS _ _ _ _ rfl)
         SL.RETRIES (LS .infer (typedInp inp 0)) (goodMk_LS _ _ _ _ rfl)
-     simp only [LS, nm, nth, topLets, sfr, hR, readerValue, wordsValue, rs_eval, rs_code] at hloop
+     simp [LS, LSg, probeEnv, loopPrefix, probeInp, relabel, rawInp, sfr, hR, readerValue, wordsValue, rs_eval, rs_code] at hloop
      -- the function up to the loop: version load, generation load, the three early returns
      simp [rs_eval, rs_code, readerValue, wordsValue, rawInp, typedInp_0, typedInp_1]
      rw [hloop _ _ (by omega)]
      clear hloop hR hR2 hF
      snap_tail hgood)
   | -- the `for` form
-    (have hloop := loop_eq_for inp nowNs sizes _ _ _ rfl (typedInp inp 0) cg cache SL.RETRIES 0
+    (have hloop := fun t => loop_eq_for inp nowNs sizes _ _ _ rfl (typedInp inp 0) cg cache SL.RETRIES t 0
         2 ⟨0, rfl⟩ (typedInp inp 1)
      have hgood := loopOutG_spec (typedInp inp) cg cache (LSf (typedInp inp 0)) (goodMk_LSf _ _ _ _ rfl)
         SL.RETRIES (LSf (typedInp inp 0)) (goodMk_LSf _ _ _ _ rfl)
-     simp only [LSf, nm, nth, topLets, sfr, hR, Int.zero_add, readerValue, wordsValue, rs_eval, rs_code] at hloop
+     simp [LSf, LSg, probeEnv, loopPrefix, probeInp, relabel, rawInp, sfr, hR, Int.zero_add, readerValue, wordsValue, rs_eval, rs_code] at hloop
      simp [rs_eval, rs_code, readerValue, wordsValue, rawInp, typedInp_0, typedInp_1]
-     rw [hloop _ _ (by omega)]
+     rw [hloop _ _ _ (by omega)]
      clear hloop hR hR2 hF
      snap_tail hgood)
 
